@@ -378,6 +378,38 @@ func TestC06Versions(t *testing.T) {
 		"crash-free histories up to length 5 over two versions of one renamed file (2 parts each, the second version after the first was transmitted), orderly restart, clock +11 s; delivered files stay in the final directory; every crash point of every transition, and of the recovery that follows for histories up to length 3")
 }
 
+// TestC06Held: a version that is validated and held for its predecessor (its body is <name>.wait)
+// is superseded by a new version of the same name; the receiver dies anywhere in between.
+func TestC06Held(t *testing.T) {
+	files := []*sFile{
+		{Key: "p1", Name: "p", Data: "PPPP", Cuts: []int64{0, 4}},
+		{Key: "b1", Name: "b", Prev: "p", Data: "CCCC", Cuts: []int64{0, 4}},
+		{Key: "b2", Name: "b", Prev: "p", Data: "ccccdd", Cuts: []int64{0, 4, 6}},
+	}
+	alphabet := func(hist []sAction) []sAction {
+		var out []sAction
+		b1done := histCount(hist, "recv", "b1", 0) > 0
+		for _, f := range files {
+			if f.Key == "b2" && !b1done {
+				continue
+			}
+			for p := 0; p < len(f.Cuts)-1; p++ {
+				if histCount(hist, "recv", f.Key, p) < 1 {
+					out = append(out, sAction{Op: "recv", F: f.Key, P: p})
+				}
+			}
+		}
+		for _, op := range []string{"restart", "adv10s"} {
+			if histCount(hist, op, "", 0) < 1 {
+				out = append(out, sAction{Op: op})
+			}
+		}
+		return out
+	}
+	runC06(t, "receiver crash points, a held version superseded by a new one (E-HIST)", files, alphabet, 5, false,
+		"crash-free histories up to length 5 over: file p (1 part), two versions of file b (1 and 2 parts, predecessor p; the second version after the first was transmitted), orderly restart, clock +11 s; every crash point of every transition, and of the recovery that follows for histories up to length 3")
+}
+
 func TestC06(t *testing.T) {
 	depth := 5
 	if vh.Thorough() {
